@@ -608,7 +608,7 @@ func (w *World) M05(rec *ScanRecord) []Violation {
 	var out []Violation
 	for _, gr := range rec.Groups {
 		ex := w.Expectation(rec, gr)
-		if ex.Kind != "band" || scaleUpDisturbed(rec, gr) || ex.Need < 0 {
+		if ex.Kind != "band" || cloudPathDisturbed(rec, gr) || ex.Need < 0 {
 			continue
 		}
 		if ex.Bands != [4]bool{false, false, false, true} {
@@ -835,12 +835,14 @@ func (w *World) M07(rec *ScanRecord) []Violation {
 			}
 			if K != wantK && !nodeFailures {
 				out = append(out, viol("C07", "recover-untaint-count", "group %d: need %d, %d tainted, untainted %d", gr.G, N, P, K))
+				out = append(out, viol("C03", "recover-untaint-count", "group %d below its minimum: need %d, %d tainted, untainted %d", gr.G, N, P, K))
 			}
 			// a group past its cool-down that still behaves as locked breaks C02's release half
 			if K == 0 && nreq == 0 && (P > 0 || B-cur > 0) && !gr.LockT0.IsZero() && !rec.Restarted && gr.K8sWrites+gr.AWSWrites == 0 {
 				o := &w.Cfg.Groups[gr.G].Opts
 				out = append(out, viol("C02", "lock-outlives-cooldown", "group %d: cool-down %v ended at %v, scan at %v below minimum (untainted %d < %d) still takes no action", gr.G,
 					Dur(o.ScaleUpCoolDownPeriod), gr.LockT0.Add(Dur(o.ScaleUpCoolDownPeriod)).UTC().Format(time.RFC3339Nano), gr.Start.UTC().Format(time.RFC3339Nano), len(gr.GV.Untainted), gr.EffMin))
+				out = append(out, viol("C03", "below-minimum-no-recovery", "group %d: %d untainted nodes, minimum %d, the cool-down is over, yet the scan neither untaints nor requests capacity", gr.G, len(gr.GV.Untainted), gr.EffMin))
 			}
 			rem := N - K
 			if rem > 0 {
@@ -854,6 +856,7 @@ func (w *World) M07(rec *ScanRecord) []Violation {
 				}
 				if want > 0 && (nreq == 0 || R != want) {
 					out = append(out, viol("C07", "recover-remainder", "group %d: need %d, untainted %d, headroom %d: expected request of %d above real desired, got %d in %d requests", gr.G, N, K, head, want, R, nreq))
+					out = append(out, viol("C03", "recover-remainder", "group %d below its minimum: need %d, untainted %d, headroom %d: expected request of %d above real desired, got %d in %d requests", gr.G, N, K, head, want, R, nreq))
 				}
 				if want == 0 && nreq > 0 {
 					out = append(out, viol("C07", "recover-remainder", "group %d: no headroom (desired %d bound %d) yet %d requests", gr.G, cur, B, nreq))
